@@ -87,7 +87,7 @@ CHECKS['C08'] = (E4, 'E4-sanitizer-native-enumerator',
 E3 = 'stateless model checking of the real C code under a controlled cooperative scheduler (iterative preemption bounding), plus exhaustive completion orders of a virtual worker pool'
 CHECKS['C07'] = (E3, 'E3-vomp-schedule-explorer',
     'The six dtw_distances_*_parallel routines are compiled with gcc -fopenmp (outlined exactly as shipped) and -fsanitize=thread as an instrumentation pass, and linked against vomp, a virtual OpenMP runtime whose ucontext threads are '
-    'scheduled by the explorer: every interleaving of scheduling points up to 2 (3) preemptions x T = 1..3 (4) x 5 dispatch kinds (static/dynamic/guided, chosen by the explorer) x blocks x 2 settings must give output bitwise equal to the serial routine; '
+    'scheduled by the explorer: every interleaving of scheduling points up to 2 (3) preemptions x T = 1..3 (4) x 5 dispatch kinds (static/dynamic/guided, chosen by the explorer) x blocks x 4 settings (default, window+psi+penalty, use_pruning, max_dist+psi) must give output bitwise equal to the serial routine; '
     'conflicting accesses found by a shadow map become additional scheduling points (two-phase). multiprocessing: a virtual Pool (pickled tasks, real chunking, all completion orders, P = 1..3) replaces multiprocessing.Pool; validated against the real Pool.',
     'Trusted: vomp (sequentially consistent interleavings; libgomp itself and weak memory are out of scope), gcc outlining. Bounds: T <= 4, preemption bound <= 3, n <= 5.',
     'DESIGN.md section 3 E3a/E3b, section 4 C07')
